@@ -586,6 +586,14 @@ def _refresh_type_info_alt(cls):
         if k in cls._type_info:
             del alt[key]
 
+    # what child_attrs asked of the inherited members made a base class of its
+    # own: the names of its members are taken from there.
+    base = cls.__extends__
+    if base is not None and hasattr(base, '_type_info_alt'):
+        for key, (v, k) in base._type_info_alt.items():
+            if k not in cls._type_info and key in alt:
+                alt[key] = v, k
+
     _sanitize_type_info(cls.__name__, cls._type_info, alt)
 
 
